@@ -360,6 +360,10 @@ func genLevel(r *rng.R, ci *caseIn) {
 	ci.Comp = []string{"", "per-message", "context-takeover"}[r.Intn(3)]
 }
 
+// quickTier shrinks the volume of case terms (Coq parses ~100 kB/s): shorter messages, the
+// 255..257 boundary sizes and the large sizes less often, fewer cases.  Thorough keeps the lot.
+var quickTier = true
+
 func genMsg(r *rng.R, tag int, maxLen int) []byte {
 	var n int
 	switch r.Intn(6) {
@@ -369,6 +373,11 @@ func genMsg(r *rng.R, tag int, maxLen int) []byte {
 		n = 1 + r.Intn(4)
 	case 2:
 		n = []int{255, 256, 257}[r.Intn(3)]
+		if quickTier && maxLen < 255 && !r.Chance(1, 4) {
+			n = r.Intn(maxLen + 1)
+		} else if maxLen < n {
+			maxLen = n
+		}
 	default:
 		n = r.Intn(maxLen + 1)
 	}
@@ -403,11 +412,15 @@ func genStream(r *rng.R) (*caseIn, string, bool) {
 	for w := 0; w < k; w++ {
 		n := 1 + r.Intn(7)
 		var ms [][]byte
-		for i := 0; i < n; i++ {
-			ms = append(ms, genMsg(r, w, 300))
+		maxLen, bigLen, bigOneIn := 300, 5000, 40
+		if quickTier {
+			maxLen, bigLen, bigOneIn = 90, 1500, 80
 		}
-		if r.Chance(1, 40) {
-			ms = append(ms, genMsg(r, w, 5000))
+		for i := 0; i < n; i++ {
+			ms = append(ms, genMsg(r, w, maxLen))
+		}
+		if r.Chance(1, bigOneIn) {
+			ms = append(ms, genMsg(r, w, bigLen))
 		}
 		ci.Writers = append(ci.Writers, ms)
 	}
@@ -425,7 +438,7 @@ func genStream(r *rng.R) (*caseIn, string, bool) {
 func genDgram(r *rng.R) (*caseIn, string, bool) {
 	ci := &caseIn{Kind: "dgram", P: 1 + r.Intn(8)}
 	genLevel(r, ci)
-	if r.Chance(1, 12) {
+	if (quickTier && r.Chance(1, 40)) || (!quickTier && r.Chance(1, 12)) {
 		ci.P = 1188
 	}
 	nh := r.Intn(4) // number of AsUnreliable() handles
@@ -441,6 +454,10 @@ func genDgram(r *rng.R) (*caseIn, string, bool) {
 		}
 		if ci.P == 1188 && size > 3*ci.P {
 			size = 3 * ci.P
+		}
+		if quickTier && ci.P == 1188 && (size > ci.P+1 || i >= 3) {
+			// the default payload size: keep the case term small (one two-segment message at most)
+			size = []int{0, 1, 7, ci.P + 1}[r.Intn(3+map[bool]int{true: 0, false: 1}[multi])]
 		}
 		m := r.Bytes(size)
 		if len(m) > 0 {
@@ -491,10 +508,11 @@ func genDgram(r *rng.R) (*caseIn, string, bool) {
 func main() {
 	seed := flag.Uint64("seed", 1, "seed")
 	tier := flag.String("tier", "quick", "quick|thorough")
+	only := flag.String("only", "", "stream|dgram: generate only that kind of case (default both); the random stream is the same as in a full run")
 	out := flag.String("out", "", "output directory")
 	replay := flag.String("replay", "", "replay file (JSON with an 'input' field)")
 	flag.Parse()
-	w := coqfmt.NewWriter(*out, "C13", "From Iscp Require Import Model.Segment Model.Framing.", "qf_case", "qf_judge", 60)
+	w := coqfmt.NewWriter(*out, "C13", "From Iscp Require Import Model.Segment Model.Framing.", "qf_case", "qf_judge", 30)
 	empty := "QStream false [] [] [] true [] 0 0"
 	add := func(ci *caseIn, kind string, nt bool) {
 		term, obs, direct := runCase(ci)
@@ -535,21 +553,35 @@ func main() {
 		return
 	}
 	r := rng.New(*seed)
-	nS, nD := 350, 450
+	nS, nD := 260, 340
+	quickTier = *tier != "thorough"
 	if *tier == "thorough" {
 		nS, nD = 5000, 6000
 	}
+	if *only != "" && *only != "stream" && *only != "dgram" {
+		fmt.Fprintln(os.Stderr, "-only must be stream or dgram")
+		os.Exit(2)
+	}
 	for i := 0; i < nS; i++ {
-		cr := r.Fork()
+		cr := r.Fork() // forked even when skipped: -only dgram sees the cases of a full run
+		if *only == "dgram" {
+			continue
+		}
 		ci, kind, nt := genStream(cr)
 		add(ci, kind, nt)
 	}
 	for i := 0; i < nD; i++ {
 		cr := r.Fork()
+		if *only == "stream" {
+			continue
+		}
 		ci, kind, nt := genDgram(cr)
 		add(ci, kind, nt)
 	}
-	rule := "stream: 1-4 writer goroutines x 1-7 messages (sizes 0, 1-4, 255-257, random <=300, rarely <=5000; payloads that look like length prefixes), fake send stream that yields between Write calls, receive stream handing out 1/3/5/64-byte or unlimited chunks, compression negotiated in ~1/5 of the cases; dgram: 2-7 messages over Transport.WriteUnreliable and 0-3 AsUnreliable() handles, payload size 1-8 (and the default 1188), sizes at multiples of P +-1, sequential or one goroutine per handle, delivery in a random permutation with loss 1/4. non-trivial = concurrent stream writers or >=3 messages; datagram: a multi-segment message and more than one handle; distinct = distinct Coq case terms"
+	rule := "stream: 1-4 writer goroutines x 1-7 messages (sizes 0, 1-4, 255-257, random <=300, rarely <=5000 - quick tier: random <=90, 255-257 in 1/24 of the messages, rarely <=1500; payloads that look like length prefixes), fake send stream that yields between Write calls, receive stream handing out 1/3/5/64-byte or unlimited chunks, compression negotiated in ~1/5 of the cases; dgram: 2-7 messages over Transport.WriteUnreliable and 0-3 AsUnreliable() handles, payload size 1-8 (and the default 1188), sizes at multiples of P +-1, sequential or one goroutine per handle, delivery in a random permutation with loss 1/4. non-trivial = concurrent stream writers or >=3 messages; datagram: a multi-segment message and more than one handle; distinct = distinct Coq case terms"
+	if *only != "" {
+		rule = "(-only " + *only + ") " + rule
+	}
 	if err := w.Flush(*seed, *tier, rule, false, nil); err != nil {
 		fmt.Fprintln(os.Stderr, err)
 		os.Exit(2)
